@@ -72,13 +72,13 @@ def make_array(ac, n, p, start, seed):
         return vals, proj.elems(np.array(vals, dtype="i1")), {"int8", "bool"}, "cooked"
     if ac == "list_str_all_empty":
         return [""] * n, ["s:"] * n, {"object"}, "cooked"
-    if ac in ("list_str", "np_str", "list_str_multibyte"):
+    if ac in ("list_str", "np_str", "list_str_multibyte", "np_obj_str"):
         src = MSTRS if ac == "list_str_multibyte" else STRS
         vals = ["%d%s" % (start + i, src[(start + i) % len(src)]) if (start + i) % 4 else src[(start + i) % len(src)]
                 for i in range(n)]
-        arg = np.array(vals) if ac == "np_str" else vals
+        arg = np.array(vals) if ac == "np_str" else (np.array(vals, dtype=object) if ac == "np_obj_str" else vals)
         return arg, ["s:" + v for v in vals], {"object"}, "cooked"
-    if ac in ("np_datetime64_us", "np_datetime64_ns", "list_datetime"):
+    if ac in ("np_datetime64_us", "np_datetime64_ns", "list_datetime", "np_obj_datetime"):
         SECS = [1600000000, -2500000000, 0, 86399, -2082844801]       # two of them lie before 1904
         us = [SECS[(start + i) % 5] * 10 ** 6 + 3600 * 10 ** 6 * i + US[(start + i) % len(US)] for i in range(n)]
         exp = [struct.pack("<q", v).hex() for v in us]
@@ -90,6 +90,8 @@ def make_array(ac, n, p, start, seed):
             us = [abs(v) % (4 * 10 ** 15) for v in us]
             exp = [struct.pack("<q", v).hex() for v in us]
             arg = [datetime(1970, 1, 1) + (np.timedelta64(v, "us").astype(object)) for v in us]
+            if ac == "np_obj_datetime":
+                arg = np.array(arg, dtype=object)
         return arg, exp, {"datetime64[us]"}, "cooked"
     if ac == "timestamp_array":
         from nptdms.timestamp import TimestampArray
@@ -164,6 +166,23 @@ def _names(path):
     return [p.strip("'") for p in parts if p]
 
 
+HISTORY_CLASSES = ["list_datetime", "np_obj_str", "np_obj_datetime", "timestamp_array", "list_str", "list_i8",
+                   "list_bool", "np_str", "list_float", "np_datetime64_ns", "np_be_int32"]
+
+
+def process_history(h):
+    """Another writer used earlier in the same process.  The specification keeps no state outside a writer object, so
+    what an unrelated writer was given before must not influence this program (the rotation makes every ordered pair of
+    the classes above occur before some program)."""
+    from nptdms import TdmsWriter, ChannelObject
+    k = h % len(HISTORY_CLASSES)
+    order = (HISTORY_CLASSES[k:] + HISTORY_CLASSES[:k])[:3]
+    with TdmsWriter(io.BytesIO()) as w:
+        for ac in order:
+            arg = make_array(ac, 2, "/'h'/'h'", 0, 0)[0]
+            w.write_segment([ChannelObject("h", ac, arg, {"p": 1})])
+
+
 def run_program(rec, seed, target="stream", index=False, version=4712):
     """Execute the program with the real TdmsWriter.  -> dict(data bytes, index bytes, expected per channel, ...)"""
     from nptdms import TdmsWriter, RootObject, GroupObject, ChannelObject
@@ -184,6 +203,7 @@ def run_program(rec, seed, target="stream", index=False, version=4712):
     writer = None
     nwrites = 0
     try:
+        process_history(zlib.crc32(repr(prog).encode()) + seed)
         for call in prog:
             if call["call"] == "open":
                 if target == "path":
